@@ -41,6 +41,7 @@ def gen_hist(rng, length: int) -> str:
             provs[pid] = kind
     funcs = {}
     nested_targets = set()
+    setters = set()
 
     def define(fid):
         pid = rng.choice(["-", "-", *provs.keys(), *[f"self:{p}" for p in provs if provs[p] != "bad"]])
@@ -58,11 +59,14 @@ def gen_hist(rng, length: int) -> str:
         ret = "-" if rng.random() < 0.6 else f"T{rng.randrange(n_alias)}:{rng.choice(['0', '1'])}"
         if ret != "-" and rng.random() < 0.25:
             ret = "(" + "+".join(f"T{rng.randrange(n_alias)}:0" for _ in range(rng.randint(1, 2))) + ")"
-        same = [g for g, v in funcs.items() if [n for n, _ in v["ps"]] == [n for n, _ in ps]]
+        # (a function whose body updates a provider is never the target of a nested call: the model applies such an update for
+        #  top-level calls only)
+        same = [g for g, v in funcs.items() if [n for n, _ in v["ps"]] == [n for n, _ in ps] and g not in setters]
         nested = rng.choice(same + [fid]) if (rng.random() < 0.2) else "-"
         if nested != "-":
             nested_targets.add(nested)
-        elif ret != "-" and rng.random() < 0.2 and any(k != "bad" for k in provs.values()):
+        elif ret != "-" and rng.random() < 0.2 and fid not in nested_targets and any(k != "bad" for k in provs.values()):
+            setters.add(fid)
             # the body updates a provider while the call is running (in place for the long-lived dict): the return value is judged under
             # the mapping the call started with
             nested = f"set:{rng.choice([p for p, k in provs.items() if k != 'bad'])}={rng.choice(['k:3', 'k:5', 'a:2', 'a:3,k:3', 'n:4,k:3'])}"
